@@ -58,7 +58,8 @@ def auEnc : Nat → Option Nat
 /-- AIFF-C compression type; plain big-endian PCM has none ('NONE' when the file is AIFF-C) -/
 def aiffComp (codec : Nat) (le : Bool) : Option String :=
   if codec == 0x05 then some "raw "
-  else if isPcm codec then (if le then some "sowt" else none)
+  else if codec == 0x01 || codec == 0x02 then (if le then some "sowt" else none)      -- ('sowt' is the 8 / 16-bit registration; 24 / 32-bit little-endian has none)
+  else if isPcm codec then none
   else match codec with
     | 0x06 => some "FL32" | 0x07 => some "FL64" | 0x10 => some "ulaw" | 0x11 => some "alaw"
     | 0x12 => some "ima4" | 0x20 => some "GSM " | 0x40 | 0x41 | 0x42 => some "DWVW" | _ => none
